@@ -40,3 +40,50 @@ package tree
 //@   ensures [eq_is_same_taxa_class] result ==> qsametaxa(q, cast(iref(h), "*Quartet"))
 //@   ensures [eq_implies_hash] result ==> qhash(q) == qhash(cast(iref(h), "*Quartet"))
 //@   ensures [eq_complete] qdistinct(q) && qdistinct(cast(iref(h), "*Quartet")) && qsametaxa(q, cast(iref(h), "*Quartet")) ==> result
+
+// ---------------------------------------------------------------------------
+// Copies (property C15): exact copy, fresh storage
+// ---------------------------------------------------------------------------
+
+//@ func (*tree.Tree).CopyNode
+//@   requires t != nil && n != nil
+//@   allocates Node, []string, []*Node, []*Edge
+//@   assigns nothing
+//@   ensures [fresh_node] fresh(result)
+//@   ensures [scalars] result.name == n.name && result.depth == n.depth && result.id == n.id
+//@   ensures [comment_len] len(result.comment) == len(n.comment)
+//@   ensures [comment_elems] forall k int :: 0 <= k && k < len(n.comment) ==> result.comment[k] == n.comment[k]
+//@   ensures [comment_fresh_storage] fresh_arr(result.comment)
+//@   ensures [no_neighbours] len(result.neigh) == 0 && len(result.br) == 0
+//@   loop 1
+//@     assigns elems(out.comment)
+//@     invariant [out_unchanged] out.comment == lold(out.comment) && n.comment == lold(n.comment)
+//@     invariant [copied_prefix] forall k int :: 0 <= k && k < i ==> out.comment[k] == n.comment[k]
+
+//@ func (*tree.Tree).CopyEdge
+//@   requires t != nil && e != nil && copy != nil && e != copy
+//@   allocates []string, bitset.BitSet
+//@   assigns copy.length, copy.support, copy.pvalue, copy.id, copy.comment, copy.bitset, copy.ntaxleft, copy.ntaxright, copy.hashcodeleft, copy.hashcoderight
+//@   ensures [labels] copy.length == e.length && copy.support == e.support && copy.pvalue == e.pvalue && copy.id == e.id
+//@   ensures [index_fields] copy.ntaxleft == e.ntaxleft && copy.ntaxright == e.ntaxright && copy.hashcodeleft == e.hashcodeleft && copy.hashcoderight == e.hashcoderight
+//@   ensures [comment_len] len(copy.comment) == len(e.comment)
+//@   ensures [comment_elems] forall k int :: 0 <= k && k < len(e.comment) ==> copy.comment[k] == e.comment[k]
+//@   ensures [comment_fresh_storage] fresh_arr(copy.comment)
+//@   ensures [bitset_fresh] e.bitset != nil ==> fresh(copy.bitset)
+//@   ensures [ends_untouched] copy.left == old(copy.left) && copy.right == old(copy.right)
+//@   loop 1
+//@     assigns elems(copy.comment)
+//@     invariant [copy_unchanged] copy.comment == lold(copy.comment) && e.comment == lold(e.comment)
+//@     invariant [copied_prefix] forall k int :: 0 <= k && k < i ==> copy.comment[k] == e.comment[k]
+
+// ---------------------------------------------------------------------------
+// Branch hash (property C04): side-symmetric hash code
+// ---------------------------------------------------------------------------
+
+//@ define ehash(nl int, hl int, nr int, hr int) int = nl == nr ? hl * hr : (nl < nr ? hl : hr)
+
+//@ func (*tree.Edge).HashCode
+//@   requires e != nil
+//@   assigns nothing
+//@   ensures [lighter_side_or_product] result == ehash(e.ntaxleft, e.hashcodeleft, e.ntaxright, e.hashcoderight)
+//@   ensures [orientation_independent] result == ehash(e.ntaxright, e.hashcoderight, e.ntaxleft, e.hashcodeleft)
